@@ -89,6 +89,7 @@ def gen_plan(rng, tier, index):
             ['weighted_regress', 'select', 'interpolate', 'weighted_regress',
              'weighted_optimize' if rng.chance(0.1) else 'weighted_ridge']
         plan.update({'method': method, 'models': [rng.pick(kinds) for _ in range(rng.randint(1, 2))]})
+        plan['cv_ceil'] = rng.pick(['given_off', 'given_off', 'none_on', 'given_on'])      # how crossval is asked about noise ceilings
         if rng.chance(0.15):
             plan['fit_fault'] = rng.randint(1, 5)      # the k-th fit (not the first) fails with LinAlgError
     return plan
@@ -111,6 +112,9 @@ def directed_plans(tier):
                           'draw_script': {'0': {'fn': 'shuffle', 'shape': [4], 'result': list(perm)}}})
     for g in GENS:
         plans.append({**base, 'gen': g, 'random': False})
+    # the fold arithmetic for *every* (number of groups, k): one directed plan per group count
+    for n in range(2, 65 if tier == 'quick' else 130):
+        plans.append({'mode': 'G', 'n': n, 'gen': 'grid', 'spec': None, 'faults': {'rate': 0, 'kinds': []}})
     return plans
 
 
@@ -118,6 +122,8 @@ def summarize(plan):
     keys = ['mode', 'gen', 'rdm_desc', 'pat_desc', 'pre_boot', 'random', 'k_rdm', 'k_pattern', 'k', 'n_rdm', 'n_pattern',
             'n_cv', 'faults', 'models', 'method']
     s = {k: plan[k] for k in keys if k in plan}
+    if plan.get('spec') is None:
+        return s
     s['n_rdm_src'] = len(plan['spec']['rdm_uids'])
     s['n_cond_src'] = len(plan['spec']['cond_uids'])
     s['rdm_grp'] = plan['spec']['rdm_desc'].get('grp', {}).get('values')
@@ -126,6 +132,8 @@ def summarize(plan):
 
 
 def shrink_candidates(plan):
+    if plan.get('mode') == 'G':
+        return      # one group count per plan: nothing to shrink
     from checks.c09 import _drop
     spec = plan['spec']
     if plan.get('pre_boot'):
@@ -539,9 +547,10 @@ def _pipeline(ctx, plan, value_fn, script, strict, scripted_thetas=None):
             spies = [SpyFitter(f, log, scripted_thetas, fault) for f in fitters]
             out['fit_fault'] = fault
             train_set, test_set, ceil_set = res
-            r = crossval(models, src, train_set, test_set, ceil_set=ceil_set, method=plan['method'],
+            cvc = plan.get('cv_ceil', 'given_off')
+            r = crossval(models, src, train_set, test_set, ceil_set=None if cvc == 'none_on' else ceil_set, method=plan['method'],
                          fitter=spies, pattern_descriptor=plan['pat_desc'] if plan['gen'] not in RDM_ONLY else 'index',
-                         calc_noise_ceil=False)
+                         **({'calc_noise_ceil': False} if cvc == 'given_off' else ({} if cvc == 'none_on' else {'calc_noise_ceil': True})))
             out.update({'evals': np.array(r.evaluations, copy=True), 'log': log, 'models': models, 'used': used})
     out['script'] = seam.script_of_served()
     out['served'] = seam.served
@@ -549,6 +558,50 @@ def _pipeline(ctx, plan, value_fn, script, strict, scripted_thetas=None):
 
 
 NUMERIC = ('LinAlgError', 'FloatingPointError')
+
+
+def _mode_G(ctx, plan):
+    """exhaustive over k for one number of groups n (ordered assignment): every group is in exactly one test fold, fold
+    sizes differ by at most one, test and training groups of a fold are disjoint and together all groups"""
+    import rsatoolbox.inference.crossvalsets as cvs
+    from rsatoolbox.rdm import RDMs
+    n = plan['n']
+    ctx.tick('op', gen='grid', n=n)
+    # n conditions, one RDM (pattern folds); n RDMs over 3 conditions (rdm folds)
+    pat = RDMs(np.arange(1.0, n * (n - 1) // 2 + 1).reshape(1, -1), pattern_descriptors={'uid': list(range(n))})
+    rdm = RDMs(np.arange(1.0, 3 * n + 1).reshape(n, 3), rdm_descriptors={'uid': list(range(n))})
+    for k in range(2, n + 1):
+        for gname, call, axis in (('sets_k_fold_pattern', lambda: cvs.sets_k_fold_pattern(pat, pattern_descriptor='uid', k=k, random=False), 'pattern'),
+                                  ('sets_k_fold_rdm', lambda: cvs.sets_k_fold_rdm(rdm, k_rdm=k, random=False, rdm_descriptor='uid'), 'rdm')):
+            if axis == 'pattern' and (n - (n // k if n % k == 0 else n // k + 1)) < 1:
+                continue
+            try:
+                res = call()
+            except Exception as e:
+                if axis == 'pattern' and k > n:
+                    continue
+                ctx.violation('folds_ref.raises', f'{gname}:grid:raises:{type(e).__name__}', f'{gname} with {n} groups and k={k} raised {type(e).__name__}: {e}')
+                return
+            train, test = res[0], res[1]
+            seen = Counter()
+            sizes = []
+            for tr, te in zip(train, test):
+                d_te = te[0].pattern_descriptors['uid'] if axis == 'pattern' else te[0].rdm_descriptors['uid']
+                d_tr = tr[0].pattern_descriptors['uid'] if axis == 'pattern' else tr[0].rdm_descriptors['uid']
+                te_g, tr_g = set(normlist(d_te)), set(normlist(d_tr))
+                seen.update(te_g)
+                sizes.append(len(te_g))
+                if te_g & tr_g or (te_g | tr_g) != set(range(n)):
+                    ctx.violation('folds_ref.partition', f'{gname}:grid:train-test', f'{gname}, {n} groups, k={k}: a fold has test groups {sorted(te_g)} and training groups {sorted(tr_g)}')
+                    return
+            if len(train) != k or any(seen[g] != 1 for g in range(n)) or max(sizes) - min(sizes) > 1:
+                ctx.violation('folds_ref.partition', f'{gname}:grid:not-a-partition',
+                              f'{gname}, {n} groups, k={k}: {len(train)} folds with test sizes {sizes}; groups by number of test folds '
+                              f'{ {g: c for g, c in sorted(seen.items()) if c != 1} } (missing: {[g for g in range(n) if seen[g] == 0]})')
+                return
+            ctx.probe('grid_cells_checked')
+    ctx.nontrivial = True
+    ctx.behaviour('G', n)
 
 
 def _mode_C(ctx, plan):
@@ -595,6 +648,8 @@ def execute(plan, ctx):
     ctx.components.update(['real:rsatoolbox.inference.crossvalsets', 'real:rsatoolbox.inference.crossval',
                            'real:rsatoolbox.model.fitter', 'real:rsatoolbox.rdm.RDMs',
                            'stub:numpy.random (shuffles/draws served by the simulator)'])
+    if plan['mode'] == 'G':
+        return _mode_G(ctx, plan)
     spec = plan['spec']
     tabs = gen.source_tables(spec)
     g = plan['gen']
